@@ -13,6 +13,7 @@ type arguments - this exercises partial monomorphisation and variable index shif
 from __future__ import annotations
 
 import itertools
+import re
 import struct
 
 from hugr import tys as ht
@@ -167,6 +168,56 @@ def cases(tier):
             g = tv + f"@guppy\ndef pk{sig}:\n    return {ret}\n"
             sp = f"@guppy\ndef pk{spsig}:\n    return {ret}\n"
             out.append((f"comptime-generic-arg[{order},{tt},{ss}]", g, sp, [f'result("r", {call})'], [f'result("r", {spcall})'], "z: int", [("int",)]))
+    # --- T13 a generic function that loads a CUSTOM function as a value (struct constructor, builtin gate):
+    #         the loaded function is compiled under its own monomorphisation; the rest of the body must
+    #         continue under the enclosing function's.  Parameter used before / after / on both sides.
+    loads = {
+        "struct-constructor": (["mk = Box[int]", "bx = mk(x)", "v = bx.v"], ""),
+        "const-struct-constructor": (["mk = Flag[True]", "mk()", "v = x"], ""),
+        "two-param-struct-constructor": (["mk = Two[int, float]", "tw = mk(x, 2.5)", "v = tw.a"], ""),
+        "builtin-gate-as-argument": (["q = qubit()", "app(h, q)", "discard(q)", "v = x"],
+                                     "@guppy\ndef app(f: Callable[[qubit], None], q: qubit) -> None:\n    f(q)\n\n"),
+    }
+    params = {
+        "nat-const": ("[n: nat](x: int) -> int", "n", [("3", "foo[3](a)"), ("0", "foo[0](a)")], "int({P})"),
+        "float-const": ("[c: float](x: int) -> float", "c", [("1.5", "foo[1.5](a)"), ("-2.25", "foo[-2.25](a)")], "{P}"),
+        "bool-const": ("[c: bool](x: int) -> int", "c", [("True", "foo[True](a)"), ("False", "foo[False](a)")], "int({P})"),
+        "comptime-int-arg": ("(x: int, k: int @comptime) -> int", "k", [("5", "foo(a, 5)"), ("-2", "foo(a, -2)")], "{P}"),
+        "comptime-float-arg": ("(x: int, k: float @comptime) -> float", "k", [("0.5", "foo(a, 0.5)")], "{P}"),
+    }
+    for (ln, (llines, lhdr)), (pn, (sig, pname, insts, use)) in itertools.product(loads.items(), params.items()):
+        for where in ("after", "before", "both"):
+            rty = sig.rsplit("-> ", 1)[1]
+            conv = "float(v)" if rty == "float" else "v"
+            u = use.replace("{P}", pname)
+            lines = (["r0 = " + u] if where in ("before", "both") else []) + llines
+            if where == "before":
+                ret = f"return {conv} + r0"
+            elif where == "after":
+                ret = f"return {conv} + {u}"
+            else:
+                ret = f"return {conv} + r0 * 2 + {u}"
+            for val, call in insts:
+                g = lhdr + "from collections.abc import Callable\n\n@guppy\ndef foo" + sig + ":\n" + "".join(f"    {l}\n" for l in lines) + f"    {ret}\n"
+                ssig = sig[sig.index("("):].replace(", k: int @comptime", "").replace(", k: float @comptime", "")
+                lit_v = f"nat({val})" if pn == "nat-const" else val
+                sub = lambda t: re.sub(rf"\b{pname}\b", f"({lit_v})", t)   # noqa: E731
+                sp = lhdr + "from collections.abc import Callable\n\n@guppy\ndef foo" + ssig + ":\n" + "".join(f"    {sub(l)}\n" for l in lines) + f"    {sub(ret)}\n"
+                out.append((f"load-custom-value[{ln},{pn},{where},{val}]", g, sp, [f'result("r", {call})'], ['result("r", foo(a))'], "a: int", [("int",)]))
+    # --- T14 DEPENDENT const parameters forwarded through two instantiation steps (the type of the const
+    #         parameter is itself a parameter), as explicit type application and as @comptime arguments
+    dep = {"nat": ("42", "nat(42)"), "float": ("4.5", "4.5"), "bool": ("True", "True"), "int": ("7", "7")}
+    for t, (val, lit_v) in dep.items():
+        g = ("@guppy\ndef inner[V: (Copy, Drop), y: V]() -> V:\n    return y\n\n"
+             "@guppy\ndef outer[T: (Copy, Drop), xv: T]() -> T:\n    return inner[T, xv]()\n")
+        sp = f"@guppy\ndef inner() -> {t}:\n    return {lit_v}\n\n@guppy\ndef outer() -> {t}:\n    return inner()\n"
+        if t != "int":       # an integer literal in a type application is a nat argument
+          out.append((f"dependent-const-forwarded[{t}]", g, sp, [f'result("r", outer[{t}, {val}]())'], ['result("r", outer())'], "z: int", [("int",)]))
+        g = ("V = guppy.type_var(\"V\", copyable=True, droppable=True)\nT3 = guppy.type_var(\"T3\", copyable=True, droppable=True)\n\n"
+             "@guppy\ndef inner(y: V @comptime) -> V:\n    return y\n\n@guppy\ndef outer(xv: T3 @comptime, w: int) -> T3:\n    return inner(xv)\n")
+        sp = f"@guppy\ndef inner() -> {t}:\n    return {lit_v}\n\n@guppy\ndef outer(w: int) -> {t}:\n    return inner()\n"
+        if t != "nat":       # a nat value cannot be written as a comptime literal (42 is an int, nat(42) is a call)
+          out.append((f"dependent-comptime-forwarded[{t}]", g, sp, [f'result("r", outer({lit_v}, z))'], ['result("r", outer(z))'], "z: int", [("int",)]))
     # --- T10 generic calls generic with different parameter order
     for t, n in itertools.product(["int", "float"], [1, 3]):
         g = ("@guppy\ndef inner[n: nat, T: Copy](xs: array[T, n], i: int) -> T:\n    return xs[i]\n\n"
